@@ -2,7 +2,7 @@
 import ast
 import os
 
-from sa.helpers import (mkflow, spec, code, one, calls, bind_call, param_env,
+from sa.helpers import (the_return, mkflow, spec, code, one, calls, bind_call, param_env,
                         fmt, atom_of, unparse, walk_no_nested)
 from sa.index import AnalysisError, ClassInfo, FuncInfo, REPO
 from sa.algebra import RF, dotted
@@ -346,7 +346,7 @@ def strictness(ix, R, fams, table):
             st = [e for e in fl.of('store') if lp[0] in e.loops]
             if len(st) != 1 or not fl.tab.equal(st[0].value, fl.tab.atom('idx', (pe['config'], key))):
                 why.append('value stored is %s' % [fmt(fl, e.value) for e in st])
-        r = one(fl.of('return'), 'return')
+        r = the_return(fl)
         from sa.pattern import find as _find
         if _find(f.node, ['V_o = %s(**V_kw)' % f.params()[1], 'return V_o'])[0] is None:
             why.append('object is not built as klass(**kwargs)')
